@@ -158,3 +158,75 @@ Proof. vm_compute. reflexivity. Qed.
 Example C05_nonvacuous_refused :
   c_knot_remove (mkcurve (mkkv [0; 0; 0; 1#2; 1; 1; 1] 2) (Some [[1]; [3#2]; [5]; [-3]]) None) [1#2] (Some tol_remove) = Err ValueError.
 Proof. vm_compute. reflexivity. Qed.
+
+From NurbsV Require Import Spec.BSpline Proofs.Local Proofs.LinIndep Proofs.LinIndepCurves.
+From NurbsV Require Proofs.UnionProofs.
+(* ---- semantic removability (Proofs/LinIndepCurves.v): if SOME coefficient list over the coarser vector gives the same
+   function, the fine control points are the insertion matrix applied to it (linear independence), so knot_remove is accepted
+   under every tolerance and returns exactly that coarse curve. ---- *)
+Theorem C05_removable_is_inserted :
+  forall (c1 : curve) (P1 : list pt) (d : nat) (nodes : list Q) (knew : kv) (Q0 : list pt),
+       cW c1 = None ->
+       cP c1 = Some P1 ->
+       WF (kvec (ckv c1)) (cdeg c1) ->
+       length P1 = cnpts c1 ->
+       Forall (fun q : pt => length q = d) P1 ->
+       kremove (ckv c1) nodes = Ok knew ->
+       kdeg knew = cdeg c1 ->
+       limits_eqb (ckv c1) knew = true ->
+       length Q0 = knpts knew ->
+       Forall (fun q : pt => length q = d) Q0 ->
+       (forall u : Q,
+        in_range (kvec (ckv c1)) (cdeg c1) u = true ->
+        Forall2 Qeq (curve_spec (kvec knew) (kdeg knew) d Q0 u) (curve_spec (kvec (ckv c1)) (cdeg c1) d P1 u)) ->
+       exists (kf2 : kv) (M : mat),
+         kinsert knew nodes = Ok kf2 /\
+         knot_insert knew nodes = Ok M /\
+         Forall2 Qeq (kvec (ckv c1)) (kvec kf2) /\
+         kdeg kf2 = kdeg knew /\ Forall2 (Forall2 Qeq) P1 (mat_apply M Q0).
+Proof. exact removable_points. Qed.
+Print Assumptions C05_removable_is_inserted.
+
+Theorem C05_removable_returns_coarse_curve :
+  forall (c1 : curve) (P1 : list pt) (d : nat) (nodes : list Q) (knew : kv) (Q0 : list pt),
+       cW c1 = None ->
+       cP c1 = Some P1 ->
+       WF (kvec (ckv c1)) (cdeg c1) ->
+       length P1 = cnpts c1 ->
+       Forall (fun q : pt => length q = d) P1 ->
+       kremove (ckv c1) nodes = Ok knew ->
+       kdeg knew = cdeg c1 ->
+       limits_eqb (ckv c1) knew = true ->
+       length Q0 = knpts knew ->
+       Forall (fun q : pt => length q = d) Q0 ->
+       (forall u : Q,
+        in_range (kvec (ckv c1)) (cdeg c1) u = true ->
+        Forall2 Qeq (curve_spec (kvec knew) (kdeg knew) d Q0 u) (curve_spec (kvec (ckv c1)) (cdeg c1) d P1 u)) ->
+       forall (tol : option Q) (c2 : curve),
+       c_knot_remove c1 nodes tol = Ok c2 ->
+       exists P2 : list pt,
+         cP c2 = Some P2 /\ Forall2 (Forall2 Qeq) P2 Q0 /\ cW c2 = None /\ kv_eqb (ckv c2) knew = true.
+Proof. exact removable_returns. Qed.
+Print Assumptions C05_removable_returns_coarse_curve.
+
+Theorem C05_removable_always_accepted :
+  forall (c1 : curve) (P1 : list pt) (d : nat) (nodes : list Q) (knew : kv) (Q0 : list pt),
+       cW c1 = None ->
+       cP c1 = Some P1 ->
+       WF (kvec (ckv c1)) (cdeg c1) ->
+       length P1 = cnpts c1 ->
+       Forall (fun q : pt => length q = d) P1 ->
+       kremove (ckv c1) nodes = Ok knew ->
+       kdeg knew = cdeg c1 ->
+       limits_eqb (ckv c1) knew = true ->
+       length Q0 = knpts knew ->
+       Forall (fun q : pt => length q = d) Q0 ->
+       (forall u : Q,
+        in_range (kvec (ckv c1)) (cdeg c1) u = true ->
+        Forall2 Qeq (curve_spec (kvec knew) (kdeg knew) d Q0 u) (curve_spec (kvec (ckv c1)) (cdeg c1) d P1 u)) ->
+       forall (t : Q) (T E : mat),
+       0 <= t ->
+       spline2spline (ckv c1) knew (knots_opt knew) = Ok (T, E) ->
+       exists c2 : curve, c_knot_remove c1 nodes (Some t) = Ok c2.
+Proof. exact removable_succeeds. Qed.
+Print Assumptions C05_removable_always_accepted.
